@@ -21,7 +21,7 @@ ASSUMPTIONS = ["scipy.optimize.linprog (HiGHS) solves the transport LP exactly (
 EVAL_COUNTER = "evaluate_calls"
 REQUIRED = {"quick": {"compared": 1500, "registry_compared": 26, "insitu_compared": 100,
                       "compared:kl": 50, "compared:tv": 50, "compared:hellinger": 50, "compared:chi2": 50,
-                      "compared:mmd": 100, "compared:wasserstein": 100, "named_affinity_compared": 700, "mi_alias_compared": 100, "inplace_refresh_calls": 400},
+                      "compared:mmd": 100, "compared:wasserstein": 100, "named_affinity_compared": 700, "mi_alias_compared": 100, "inplace_refresh_calls": 400, "float32_predictions_compared": 60},
             "thorough": {"compared": 20000, "registry_compared": 100, "insitu_compared": 2000}}
 SHARD_TIMEOUT = {"quick": 900, "thorough": 5400}
 
@@ -238,6 +238,26 @@ def run_case(case, ctx, st):
             v_first = gem(P, A)
             if idx % 3 == 0:
                 gem.evaluate(P, A, return_grad=True)
+            if idx % 4 == 2 and desc is not None and (isinstance(desc, str) or desc.get("cls") in ("KLGEMINI", "MI", "TVGEMINI", "HellingerGEMINI", "ChiSquareGEMINI")):
+                # predictions stored in single precision (what a float32 network hands over): the f-divergence GEMINIs of
+                # these very numbers, to single-precision accuracy - whatever the clipping bound does below float32's
+                # resolution of 1 (entries between epsilon and 1.2e-7 are legal probabilities)
+                P32 = P.astype(np.float32)
+                P64 = P32.astype(np.float64)
+                dist32 = _gem.class_distance(gem)
+                if dist32 in ("kl", "tv", "hellinger", "chi2") and bool(np.all(P64 > gem.epsilon)) and bool(np.all(P64 < 1 - max(gem.epsilon, 1e-6))) \
+                        and bool(np.all(np.abs(P64.sum(1) - 1.0) <= 1e-5)) and P.shape[0] * P.shape[1] <= 4000:
+                    st.tap.enabled = False
+                    try:
+                        v32 = float(np.asarray(gem(P32, A)).reshape(-1)[0])
+                    finally:
+                        st.tap.enabled = True
+                    P64n = P64 / P64.sum(1, keepdims=True)
+                    ref32 = ref_gemini(dist32, bool(gem.ovo), P64n, None)
+                    ctx.count("float32_predictions_compared")
+                    if not abs(v32 - ref32) <= 2e-3 * max(1.0, abs(ref32)):
+                        ctx.violation("evaluate-vs-reference", f"score-mismatch-on-float32-predictions/{dist32}-{'ovo' if gem.ovo else 'ova'}",
+                                      observed={"score": v32, "min_entry": float(P64.min()), "P": P64}, expected={"reference": ref32, "rtol": 2e-3})
             if idx % 4 == 1:
                 # the same GEMINI object and the same array objects, refreshed in place (a preallocated prediction buffer,
                 # an in-place finite difference): what __call__ returns is the score of what the arrays hold NOW
